@@ -20,7 +20,7 @@ RULE = (
     "A scenario = a real Gateway (4 zones + DHW) and a scripted controller holding 3 generated schedule versions per zone "
     "(1-4 fragments each; zone and DHW formats) and a change counter; 1-3 transfers (get with/without force_io, or set of "
     "a generated schedule; concurrent with start offsets 0 / 0.05 / 1 / 4 s, or 2-4 run one after another mostly on one zone "
-    "with the controller's schedule changed in between (same-size versions in half of those); optional caller-side wait_for of 0.3-14 s); a fate for each of "
+    "with the controller's schedule changed in between (same-size versions in half of those); optional caller-side wait_for of 1 ms - 14 s); a fate for each of "
     "the first 40 request transmissions (ok, request lost, reply lost, reply delayed 0.2-3 s, reply duplicated; loss runs of "
     "4-9 that outlast the 3 retries), 0-3 schedule changes (same or other zone) tied to transmission numbers, 0-3 overheard "
     "RP|0404 fragments (this/other zone, to this/another gateway) and 0-2 overheard complete fetches of a zone's current schedule by another gateway; then, faults off, a forced fetch of another zone. "
@@ -73,7 +73,7 @@ def scenario_strategy() -> Any:
         for _ in range(n):
             op = draw(st.sampled_from(("get", "get", "get", "set")))
             tr = {"t": draw(st.sampled_from((0.0, 0.0, 0.05, 1.0, 4.0))), "zone": draw(st.sampled_from(ZONES)), "op": op,
-                  "force_io": draw(st.booleans()), "caller_timeout": draw(st.sampled_from((None, None, None, 0.3, 1.0, 2.5, 6.0, 14.0))),
+                  "force_io": draw(st.booleans()), "caller_timeout": draw(st.sampled_from((None, None, None, 0.001, 0.003, 0.02, 0.3, 1.0, 2.5, 6.0, 14.0))),
                   "sched": draw(st.integers(0, 2))}
             if sequential:
                 tr["zone"] = zone0 if draw(st.integers(0, 3)) else tr["zone"]  # mostly the same zone again
